@@ -177,3 +177,62 @@ fn capture_reader_programs_n3() {
 	}
 	core::mem::forget(cursor);
 }
+
+// ---- one step from an arbitrary valid state (inductive form), incl. capture_up_to_size / capture_to_end
+#[kani::proof]
+#[kani::unwind(7)]
+fn capture_step_any_state() {
+	capture_step(kani::any::<u8>() % 3);
+}
+
+#[kani::proof]
+#[kani::unwind(7)]
+fn capture_step_read_only() {
+	capture_step(0);
+}
+
+fn capture_step(op: u8) {
+	let buf: [u8; N] = kani::any();
+	let len: usize = kani::any();
+	kani::assume(len <= N);
+	let data = &buf[..len];
+	let c: usize = kani::any(); // bytes already captured
+	let p: usize = kani::any(); // replay position
+	kani::assume(p <= c && c <= len);
+	let eof: bool = kani::any();
+	kani::assume(!eof || c == len);
+	let mut cursor = Cursor::new(data[..c].to_vec());
+	cursor.set_position(p as u64);
+	let mut r = CaptureReader { prefix: cursor, source: Src { data, pos: c }, source_eof: eof };
+	match op {
+		0 => {
+			let want: usize = kani::any();
+			kani::assume(want <= 3);
+			let mut tmp = [0u8; 3];
+			let got = r.read(&mut tmp[..want]).unwrap();
+			assert!(got <= want);
+			// bytes are the next bytes of the stream after position p
+			let mut j = 0;
+			while j < 3 { if j < got { assert!(tmp[j] == data[p + j]); } j += 1; }
+			assert!(r.prefix.position() as usize == p + got);
+		}
+		1 => {
+			let h: usize = kani::any();
+			kani::assume(h <= N + 1);
+			r.capture_up_to_size(h).unwrap();
+			assert!(r.prefix.position() as usize == p);
+			assert!(r.captured().len() >= if h < len { h } else { len });
+		}
+		_ => {
+			r.capture_to_end().unwrap();
+			assert!(r.prefix.position() as usize == p);
+			assert!(r.captured().len() == len && r.is_source_eof());
+		}
+	}
+	// invariant
+	check_prefix(r.captured(), data);
+	assert!(r.captured().len() == r.source.pos);
+	assert!(r.prefix.position() as usize <= r.captured().len());
+	if r.is_source_eof() { assert!(r.captured().len() == len); }
+	core::mem::forget(r);
+}
